@@ -758,6 +758,20 @@ def gen_starve(seed: int, rng: random.Random) -> dict:
     for r in range(m):
         tb["Z"][r * n + s][j] = 1e-9 * tb["scale"]
     tb["kind"] = "below_thr"
+    negligible = random.Random(seed ^ 0x51AB).random() < 0.4          # (drawn apart: the other draws stay as they were)
+    if negligible:
+        # a sector that buys nothing (pure value added) and sells to the other industries in negligible amounts only, on a table
+        # in large units: when it loses capacity, the only inventories out of balance are those of an input below the technology
+        # threshold -- flows far above the closeness tolerance in absolute terms, and they must be accounted for
+        f_ = 1e6 / tb["scale"]
+        tb["Z"] = [[v * f_ for v in row] for row in tb["Z"]]
+        tb["Y"] = [[v * f_ for v in row] for row in tb["Y"]]
+        tb["scale"] = 1e6
+        for r in range(m):
+            for jj in range(N):
+                tb["Z"][r * n + s][jj] = 0.0 if jj % n == s else 1e-9 * tb["scale"] * (1 + (r + jj) % 3)
+                tb["Z"][jj][r * n + s] = 0.0
+        tb["kind"] = "below_thr"
     cfg = gen_model_cfg(rng, tb)
     cfg["inventory_dict"] = {sec: (rng.choice([2, 3]) if sec == secs[s] else 90) for sec in secs}
     cfg["inf_sect"] = None
@@ -768,6 +782,8 @@ def gen_starve(seed: int, rng: random.Random) -> dict:
     T = 40
     ev = {"type": "arbitrary", "occ": 2, "dur": 30, "name": None,
           "impact": {f"{r}|{secs[s]}": rng.choice([0.9, 0.95, 1.0]) for r in regs}, "recovery_tau": 5, "curve": "linear"}
+    if negligible:
+        ev["impact"] = {kk: 0.5 for kk in ev["impact"]}
     return {"seed": seed, "stream": "starve", "table": tb, "model": cfg, "T": T, "events": [ev],
             "sim": {"register_stocks": False, "save_records": [], "events_mode": "one"}}
 
